@@ -297,8 +297,8 @@ class Env:
         return res
 
 
-def case_of(demo, text, opts, procs):
-    return dict(demo=demo, text=text, opts=list(opts), procs=procs)
+def case_of(demo, text, opts, procs, affinity=0):
+    return dict(demo=demo, text=text, opts=list(opts), procs=procs, affinity=affinity)
 
 
 def weight_of(stdout):
@@ -357,10 +357,10 @@ def hw_threads():
     return os.cpu_count() or 1
 
 
-def check_cores_line(out, par, cores, demo, text, opts):
+def check_cores_line(out, par, cores, demo, text, opts, affinity=0):
     """C20 demo clause: the guarded hook line printed right before the algorithm call"""
     m = re.search(r"^VERIF tbb_max_allowed_parallelism=(\d+)\s*$", out, re.M)
-    case = case_of(demo, text, opts, 0)
+    case = case_of(demo, text, opts, 0, affinity)
     base = "C20/%s/demo-options/" % demo
     if not m:
         raise Violation(base + "no-hook-line", "hook line missing (demo not built with PARMCB_VERIF?)", case)
@@ -471,8 +471,8 @@ def make_c20(env, stats):
                 stats["classes"]["affinity-restricted"] = stats["classes"].get("affinity-restricted", 0) + 1
             stats["evaluations"] += 1
             if to or rc != 0:
-                raise Violation("C20/%s/demo-options/run-failed" % ex["demo"], "exit %s timeout=%s stderr=%r" % (rc, to, err[:200]), case_of(ex["demo"], text, oo, 0))
-            check_cores_line(out, par, cores, ex["demo"], text, oo)
+                raise Violation("C20/%s/demo-options/run-failed" % ex["demo"], "exit %s timeout=%s stderr=%r" % (rc, to, err[:200]), case_of(ex["demo"], text, oo, 0, ex["affinity"]))
+            check_cores_line(out, par, cores, ex["demo"], text, oo, ex["affinity"])
             cls = "parallel+cores" if (par and cores is not None) else ("parallel-no-cores" if par else "sequential")
             stats["classes"][cls] = stats["classes"].get(cls, 0) + 1
             if par and cores is not None and cores >= 1 and cores != hw_threads():
@@ -520,17 +520,20 @@ def drive(make, env, n_examples, seed_value):
 
 def case_text(pid, case):
     lines = ["property %s" % pid, "entry %s" % case["demo"], "wtype -", "n 0", "k 1", "ranks %d" % max(1, case["procs"]), "workers 0",
-             "x procs %d" % case["procs"], "x opts %s" % json.dumps(case["opts"]), "x file %s" % json.dumps(case["text"])]
+             "x procs %d" % case["procs"], "x affinity %d" % case.get("affinity", 0), "x opts %s" % json.dumps(case["opts"]),
+             "x file %s" % json.dumps(case["text"])]
     return "\n".join(lines) + "\n"
 
 
 def parse_case(text):
-    c = dict(procs=0, opts=[], text="", demo="")
+    c = dict(procs=0, opts=[], text="", demo="", affinity=0)
     for line in text.splitlines():
         if line.startswith("entry "):
             c["demo"] = line[6:].strip()
         elif line.startswith("x procs "):
             c["procs"] = int(line[8:])
+        elif line.startswith("x affinity "):
+            c["affinity"] = int(line[11:])
         elif line.startswith("x opts "):
             c["opts"] = json.loads(line[7:])
         elif line.startswith("x file "):
@@ -563,13 +566,13 @@ def replay_case(pid, env, case):
     try:
         if pid == "C20":
             path = env.write(text)
-            rc, out, err, to, dt = env.launch(case["demo"], path, case["opts"])
+            rc, out, err, to, dt = env.launch(case["demo"], path, case["opts"], affinity=case.get("affinity", 0))
             par = "--parallel=false" not in case["opts"]
             cores = None
             for o in case["opts"]:
                 if o.startswith("--cores="):
                     cores = int(o[8:])
-            check_cores_line(out, par, cores, case["demo"], text, case["opts"])
+            check_cores_line(out, par, cores, case["demo"], text, case["opts"], case.get("affinity", 0))
             return None
         if kinds:
             check_spoiled(env, case["demo"], text, case["opts"], case["procs"], kinds)
